@@ -8,6 +8,8 @@
 //!   cvec  tid hex                  -> ok <hex> | panic                      (compress_into_vec)
 //!   dec   tid cap hex              -> ok <hex> | cap | invalid | panic | hang
 //!   dvec  tid hex                  -> ok <hex> | invalid | panic | hang     (decompress_into_vec)
+//!   rdec  tid cap hex              -> ok <hex> | fail      the real C++ Decompress against Model/HuffmanRef.v
+//!   rcomp tid cap hex              -> ok <hex> | fail      the real C++ Compress against Model/HuffmanRef.v
 use libtw2_huffman as huff;
 use libtw2_huffman::DecompressionError;
 use libtw2_huffman::Huffman;
@@ -237,6 +239,18 @@ fn do_comp(o: &mut Out, t: &Tab, x: &[u8], bug: bool, cap: usize) {
         Err(_) => ("panic".to_string(), "comppanic".to_string()),
     };
     let id = o.case(&format!("comp\t{}\t{}\t{}\t{}", t.id, bug as u8, cap, hex(x)), &res, &sig);
+    // the C++ compressor itself against its Gallina model (never with an empty buffer: it would write out of bounds)
+    if let (Some(rh), true) = (t.refh.as_ref(), cap >= 1 && bug) {
+        let mut buf = vec![0u8; cap];
+        let rr = rh.compress(x, &mut buf[..]).ok().map(|s| s.to_vec());
+        let res = match &rr {
+            Some(b) => format!("ok {}", hex(b)),
+            None => "fail".to_string(),
+        };
+        o.case(&format!("rcomp\t{}\t{}\t{}", t.id, cap, hex(x)), &res, if rr.is_some() { "rcomp-ok" } else { "rcomp-fail" });
+        let same = match (&rr, &r) { (Some(a), Ok(Ok(b))) => a == b, (None, Ok(Err(()))) => true, _ => false };
+        o.check(same, "-", &id, || format!("compress_bug({}) into {} bytes: {:?}, the reference: {:?}", hex(x), cap, r, rr));
+    }
     match r {
         Err(p) => o.check(false, "-", &id, || format!("compress({}) into {} bytes panicked: {}", hex(x), cap, p)),
         Ok(Ok(b)) => o.check(b.len() <= cap, "-", &id, || format!("compress wrote {} bytes into {}", b.len(), cap)),
@@ -282,11 +296,27 @@ fn do_dec(o: &mut Out, t: &Tab, y: &[u8], cap: usize) {
         Dec::Ok(b) => o.check(b.len() <= cap, "-", &id, || format!("decompress wrote {} bytes into {}", b.len(), cap)),
         Dec::Cap => {}
     }
-    if let Some(Some(r)) = ref_dec(t, y, cap) {
+    let rd = ref_dec(t, y, cap);
+    if let Some(Some(r)) = &rd {
         o.count("reference decodes");
         o.check(d == Dec::Ok(r.clone()), "-", &id,
-                || format!("the reference decodes {} (capacity {}) to {} but decompress gives {:?}", hex(y), cap, hex(&r), d));
+                || format!("the reference decodes {} (capacity {}) to {} but decompress gives {:?}", hex(y), cap, hex(r), d));
     }
+    // the C++ decoder itself against its Gallina model (half of the cases, a quarter in the thorough tier)
+    if let Some(rr) = rd {
+        if o.n % (if o_thorough() { 4 } else { 2 }) == 0 {
+            let (res, sig) = match &rr {
+                Some(b) => (format!("ok {}", hex(b)), format!("rdec-ok{}", b.len().min(4))),
+                None => ("fail".to_string(), "rdec-fail".to_string()),
+            };
+            o.case(&format!("rdec\t{}\t{}\t{}", t.id, cap, hex(y)), &res, &sig);
+        }
+    }
+}
+
+static THOROUGH: std::sync::atomic::AtomicBool = std::sync::atomic::AtomicBool::new(false);
+fn o_thorough() -> bool {
+    THOROUGH.load(std::sync::atomic::Ordering::Relaxed)
 }
 
 fn do_dvec(o: &mut Out, t: &Tab, y: &[u8]) {
@@ -485,8 +515,9 @@ fn main() {
     let mut o = Out::new(&a, "freq: frequency vectors (all-zero, all-equal, one huge, saturating, ties, geometric/Fibonacci = deep trees, data-like) through Huffman::from_frequencies; \
 all: compressor inputs (every string of length <= 2, every symbol x run lengths 1..24, runs, alternations, packet-like, rare symbols, random up to 8 KiB) through compress, compress_bug, compressed_len, compressed_len_bug; \
 comp: the same into capacities 0..needed+1; dec: decoder inputs (valid streams, every truncation, extensions with random tails, every string of length <= 2, random and constant garbage) against capacities 0..len+1 and larger; \
-cvec/dvec: the Vec wrappers. distinct = distinct (operation, outcome, length class) signatures");
+cvec/dvec: the Vec wrappers; rdec/rcomp: the real C++ reference against Model/HuffmanRef.v on the same decoder inputs / capacities. distinct = distinct (operation, outcome, length class) signatures");
     let th = a.thorough();
+    THOROUGH.store(th, std::sync::atomic::Ordering::Relaxed);
     let mut r = Rng::new(a.seed);
 
     let freq_path = std::path::Path::new(&std::env::var("LIBTW2_REPO").unwrap_or("/repo".into())).join("huffman/data/frequencies");
@@ -559,7 +590,7 @@ cvec/dvec: the Vec wrappers. distinct = distinct (operation, outcome, length cla
     o.exhaustive("dec: every byte string of length 0..2 as decoder input (thorough: against every capacity 0..17)");
 
     // ---- tables built from arbitrary frequency vectors
-    for k in 0..(if th { 5000u64 } else { 200 }) {
+    for k in 0..(if th { 2500u64 } else { 200 }) {
         let f = gen_freqs(&mut r, k);
         if let Some(tk) = do_freq(&mut o, &format!("F{}", k + 1), &f) {
             exercise(&mut o, &tk, &mut r, if th { 12 } else { 8 }, 60, if th { 12 } else { 8 });
